@@ -562,7 +562,6 @@ var rules = []rule{
 	{"duplicate-status-code", "duplicate-status-code", []string{"build-error"}, []string{"duplicate-case"}, `duplicate case http\.Status`},
 	{"goify-collision-methods", "goify-collision-methods", []string{"build-error"}, []string{"arity-mismatch", "redeclared", "duplicate-case", "type-mismatch", "other:field and method with the same name", "undefined"}, `redeclared|same name|duplicate`},
 	{"goify-collision-attributes", "goify-collision-attributes", []string{"build-error"}, []string{"redeclared", "type-mismatch", "undefined"}, `redeclared|duplicate field`},
-	{"tag-missing-attribute", "tag-missing-attribute", []string{"build-error"}, []string{"undefined-field"}, `res\.\w+ undefined`},
 	{"bytes-default", "bytes-default", []string{"build-error"}, []string{"type-mismatch"}, `slice can only be compared to nil`},
 	{"collection-default", "collection-default", []string{"build-error"}, []string{"type-mismatch"}, `\[\]interface\{\}|map\[(interface|string)\]interface`},
 	{"alias-of-alias", "alias-of-alias", []string{"build-error"}, []string{"type-mismatch"}, `RequestBody and untyped nil|cannot indirect`},
